@@ -303,7 +303,8 @@ func entryKindAssert(fn *Func) (param types.Object, kind string) {
 func rulesC17(r *Run) {
 	r.Kind("R1", "K9")
 	ruleSecureKinds(r, "R1")
-	r.Expect("R1", 22)
+	ruleSecureNoSkip(r, "R1")
+	r.Expect("R1", 23)
 
 	r.Kind("R2", "K3")
 	ruleCloneScrub(r, "R2")
@@ -1455,4 +1456,103 @@ func ruleLoopOverwrite(r *Run, rule string) {
 		return
 	}
 	r.Check(rule, "clone:no-loop-overwrite", bpos, bad == "", "%s", orOK(bad, "no loop overwrites a fixed destination"))
+}
+
+// ruleSecureNoSkip: in secureStruct every exported field is either overwritten (secure tag) or reaches the
+// kind dispatch / a descent; the only field that may be passed over before that is an unexported one.
+// (A guard such as `if tags.hasTag("ignore") { continue }` hides every secure-tagged value nested below it.)
+func ruleSecureNoSkip(r *Run, rule string) {
+	fn := r.fnByKey(rule, cloneKey("secureStruct"))
+	if fn == nil {
+		return
+	}
+	fl, paths, ok := r.flowPaths(rule, fn)
+	if !ok {
+		return
+	}
+	info := fl.Info
+	indexForConds(fn.Decl)
+	isHeader := func(e Event) bool {
+		return (e.Kind == EvRange && e.Depth == 0) || (e.Kind == EvBranch && e.Depth == 0 && forConds[e.Cond])
+	}
+	mentionsKind := func(e ast.Expr) bool {
+		found := false
+		if e == nil {
+			return false
+		}
+		ast.Inspect(e, func(n ast.Node) bool {
+			if x, ok := n.(ast.Expr); ok {
+				if _, isK := isReflectKindCall(info, x); isK {
+					found = true
+				}
+			}
+			return !found
+		})
+		return found
+	}
+	bad := ""
+	var bpos = fn.Decl.Pos()
+	n := 0
+	all := append(append([]Path{}, paths...), fl.Truncated()...)
+	for i := range all {
+		p := &all[i]
+		for j, h := range p.Ev {
+			if !isHeader(h) || !h.Taken {
+				continue
+			}
+			// the iteration: up to the next header event of the same loop
+			end := -1
+			for x := j + 1; x < len(p.Ev); x++ {
+				if isHeader(p.Ev[x]) && p.Ev[x].Pos == h.Pos {
+					end = x
+					break
+				}
+			}
+			if end < 0 {
+				continue // the path leaves the function (or is cut) inside this iteration
+			}
+			n++
+			handled, unexported := false, false
+			guard := ""
+			for x := j + 1; x < end; x++ {
+				e := p.Ev[x]
+				switch e.Kind {
+				case EvCall:
+					k := CalleeKey(e)
+					if k == "reflect.Value.SetString" || k == "reflect.Value.Set" || k == "reflect.Value.SetZero" {
+						handled = true
+					}
+					if strings.HasPrefix(k, pkgClone+".secure") {
+						handled = true
+					}
+				case EvBranch:
+					if e.Cond == nil {
+						continue
+					}
+					if mentionsKind(e.Cond) || mentionsKind(e.Tag) {
+						// the dispatch on the field's own kind (the test of the secure-tagged field's String kind comes after the tag)
+						if !strings.Contains(ExprStr(e.Cond), "reflect.String") || e.Tag != nil {
+							handled = true
+						}
+					}
+					for _, l := range EventLiterals(info, e) {
+						if c, ok := ast.Unparen(l.X).(*ast.CallExpr); ok {
+							if sel, ok := ast.Unparen(c.Fun).(*ast.SelectorExpr); ok && sel.Sel.Name == "IsExported" && l.Val == "true" && !l.Eq {
+								unexported = true
+							}
+						}
+					}
+					guard = ExprStr(e.Cond)
+				}
+			}
+			if !handled && !unexported && bad == "" {
+				bad, bpos = "an exported field without the secure tag is passed over before its kind is examined (last test: "+guard+"): every secure-tagged value nested below such a field survives clone/Secure and is rendered", p.Ev[end-1].Pos
+			}
+		}
+	}
+	if n == 0 {
+		r.Unresolved(rule, "secureStruct field loop iterations")
+		return
+	}
+	r.Check(rule, "secureStruct:no-field-skipped", bpos, bad == "", "%s", orOK(bad, "only unexported fields are passed over; tagged ones are overwritten, the others dispatched by kind"))
 }
